@@ -410,6 +410,31 @@ pub fn int_subjects(tier: Tier, out: &mut Vec<Subj>) {
             out.push(Subj { decl: d, tag: format!("int/{}/extreme-bound", t.name()), serde_full: true });
         }
     }
+    // contradictory bounds given as EXPRESSIONS (the macro cannot evaluate them): the declaration compiles, no
+    // value is valid, and values between the bounds violate both rules at once – the first written one must
+    // be reported (C07)
+    for (k, t) in [IntTy::I16, IntTy::U8, IntTy::I64].iter().enumerate() {
+        for order in 0..2 {
+            let lo = Vd::GreaterOrEqual(Bound { v: t.val(100).unwrap(), form: Form::Const });
+            let up = Vd::Less(Bound { v: t.val(if k == 1 { 50 } else { -5i128.max(0) + 20 }).unwrap(), form: Form::Const });
+            let mut d = Decl::new("X", Inner::Int(*t));
+            d.validation = Validation::Std(if order == 0 { vec![lo.clone(), up.clone()] } else { vec![up.clone(), lo.clone()] });
+            d.derives = vec![Tr::Debug, Tr::Clone, Tr::Copy, Tr::PartialEq, Tr::TryFrom, Tr::Into, Tr::FromStr, Tr::Display];
+            out.push(Subj { decl: d, tag: format!("int/{}/contradictory-expression-bounds", t.name()), serde_full: false });
+        }
+    }
+    // const_fn without validation: `const fn new` (sanitizer only) and plain wrapping
+    for t in [IntTy::I32, IntTy::U8] {
+        for (cf, with_san) in [(true, true), (false, true), (true, false)] {
+            let mut d = Decl::new("X", Inner::Int(t));
+            if with_san {
+                d.sans = vec![San::With(UFn::CClamp, Spell::Path)];
+            }
+            d.const_fn = cf;
+            d.derives = vec![Tr::Debug, Tr::Clone, Tr::Copy, Tr::PartialEq, Tr::From, Tr::Into, Tr::FromStr, Tr::Display];
+            out.push(Subj { decl: d, tag: format!("int/{}/const_fn={cf}/novalidation", t.name()), serde_full: false });
+        }
+    }
     // Arbitrary-focused: narrow ranges, extremes, expression forms (C09 / C14)
     arbitrary_int_subjects(tier, out);
 }
@@ -616,6 +641,14 @@ pub fn float_subjects(tier: Tier, out: &mut Vec<Subj>) {
             d.derives = vec![Tr::Debug, Tr::Clone, Tr::Copy, Tr::PartialEq, Tr::Eq, Tr::PartialOrd, Tr::Ord, Tr::TryFrom, Tr::Into, Tr::FromStr, Tr::Display];
             out.push(Subj { decl: d, tag: format!("float/f32/const_fn={cf}/finite"), serde_full: false });
         }
+    }
+    for order in 0..2 {
+        let lo = Vd::Greater(Bound { v: Val::f64(10.0), form: Form::Const });
+        let up = Vd::LessOrEqual(Bound { v: Val::f64(-10.0), form: Form::Const });
+        let mut d = Decl::new("X", Inner::F64);
+        d.validation = Validation::Std(if order == 0 { vec![Vd::Finite, lo.clone(), up.clone()] } else { vec![up.clone(), lo.clone(), Vd::Finite] });
+        d.derives = vec![Tr::Debug, Tr::Clone, Tr::Copy, Tr::PartialEq, Tr::TryFrom, Tr::Into, Tr::FromStr, Tr::Display];
+        out.push(Subj { decl: d, tag: "float/f64/contradictory-expression-bounds".into(), serde_full: false });
     }
     arbitrary_float_subjects(tier, out);
 }
@@ -895,6 +928,8 @@ pub fn rt_subjects(tier: Tier) -> Vec<Subj> {
 }
 
 /// Is the valid set of the declaration non-empty over its domain? (C09/C14 exclude empty types.)
+/// NaN does not count: bounds alone do not reject NaN (DESIGN 6.1), so `greater = 1.0, less = 1.0000001` (two
+/// adjacent floats) would have the "valid set" {NaN}; such a declaration is empty for every practical purpose.
 pub fn valid_set_nonempty(d: &Decl, dom: &[Val]) -> bool {
-    dom.iter().any(|v| refsem::construct(d, v).is_ok())
+    dom.iter().any(|v| !v.is_nan() && matches!(refsem::construct(d, v), Ok(s) if !s.is_nan()))
 }
